@@ -158,10 +158,6 @@ func ReadFrom(r io.Reader) (*Index, error) {
 	if err != nil {
 		return nil, err
 	}
-	if n == 0 {
-		return nil, nil
-	}
-
 	err = readTabixHeader(r, &idx)
 	if err != nil {
 		return nil, err
